@@ -20,6 +20,7 @@ func init() {
 		Level: "model_checking",
 		Rule: "every condition value of the pool (each built-in type at zero and non-zero, prototypes, bear children, typed descendants, objects with user-defined B) x 10 conditional constructs with tracing operands, " +
 			"and all ordered pairs of pool values for && and ||; expected behaviour derived from the single rule `c.B is the true object` evaluated in the same run, with B itself pinned for the documented zero values (falsy) and for 23 built-in non-zero values (truthy; incl. non-empty objects/maps/arrays without a public identifier-named key or with only falsy elements); operand identity by Go pointer; " +
+			"one iterator instance (4 ways of making it) polled 4 times under every sequence of guard truth values; " +
 			"nested short-circuit expressions: every triple over 11 values x 10 ways of combining two operators of {&&, ||, !} x 3 spellings (fully parenthesised, by precedence, as the condition of if/else) with tracing operands - which operands run, in which order, and which operand is the result follow from the rule applied operator by operator; " +
 			"non-trivial = every (value, construct) and (value, value, operator) instance; distinct = distinct source; round 7: The pool pins negative zeros of five origins as zero values and holds objects whose B yields a non-boolean; constructs also include `!!c`, `!(!c)`, `c.!` and `x if !!c else y`.; round 8: One conditional written once inside a function is evaluated three times with conditions of alternating truth (18 constructs x 61 value triples); guards are looked at once and where the statement stands (traced guards, guard variables changed afterwards); function descendants are truthy.",
 		Assumptions: []string{
@@ -524,6 +525,51 @@ func checkMixed(c *core.Ctx) {
 	}
 }
 
+// One iterator instance whose guard is asked again on every `next`: the rule is applied each time, whatever an earlier
+// `next` of the same iterator found (truth sequences of length 4 over an object whose B reads a variable, and over the
+// elements of a list handed out one per `next`).
+func checkStatefulIterator(c *core.Ctx) {
+	k := 0
+	for _, mk := range []string{"<{|| yield tr(\"T\", 11) if o}>.new", "<{|| yield tr(\"T\", 11) if o}>", "<{|n| yield tr(\"T\", 11) if o; recur(n + 1)}>.new(0)", "<{|| yield tr(\"T\", 11) if conds.next}>.new"} {
+		for mask := 0; mask < 16; mask++ {
+			k++
+			if !c.Mine(k) {
+				continue
+			}
+			var steps, conds []string
+			wantOut := ""
+			var wantRes []string
+			for i := 0; i < 4; i++ {
+				t := mask&(1<<i) != 0
+				steps = append(steps, fmt.Sprintf("st := %d\nr%d := nil.try.{|u| it.next}.A", map[bool]int{true: 1, false: 0}[t], i))
+				conds = append(conds, map[bool]string{true: "[0]", false: "\"\""}[t])
+				if t {
+					wantOut += "T\n"
+					wantRes = append(wantRes, "[11, nil]")
+				} else {
+					wantRes = append(wantRes, "[nil, [StopIterErr: iter stopped]]")
+				}
+			}
+			src := prelude + "st := 1\no := {B: m{st == 1}}\nconds := [" + strings.Join(conds, ", ") + "]._iter\nit := " + mk + "\n" + strings.Join(steps, "\n") + "\n[r0, r1, r2, r3]"
+			o := c.R().EvalSrc(src, "")
+			c.Eval(1)
+			c.Nontrivial(1)
+			c.Validated(1)
+			if o.Kind == "syntax" {
+				c.HarnessError("stateful iterator program does not parse: %s: %s", src, o.ErrMsg)
+				return
+			}
+			want := "[" + strings.Join(wantRes, ", ") + "]"
+			ok := o.Kind == "value" && o.Repr == want && o.Out == wantOut
+			c.Outcome("stateful-iterator:" + map[bool]string{true: "ok", false: "differs"}[ok])
+			if !ok {
+				c.Violation(core.Violation{Key: "truth-remembered/guarded-yield-of-one-iterator", Case: core.JSON(tcase{Kind: "stateful-iterator"}), Desc: strings.ReplaceAll(strings.TrimPrefix(src, prelude), "\n", "; "),
+					Expected: fmt.Sprintf("out=%q result=%s", wantOut, want), Observed: fmt.Sprintf("out=%q %s", o.Out, show(o)), Repro: src + ".p\n"})
+			}
+		}
+	}
+}
+
 func run(c *core.Ctx) {
 	p := pool(true)
 	c.Note("pool_size", len(p))
@@ -544,6 +590,7 @@ func run(c *core.Ctx) {
 	checkAgain(c)
 	checkStateful(c)
 	checkMixed(c)
+	checkStatefulIterator(c)
 }
 
 func replay(c *core.Ctx, raw json.RawMessage) {
@@ -562,6 +609,10 @@ func replay(c *core.Ctx, raw json.RawMessage) {
 	}
 	if t.Kind == "mixed" {
 		checkMixed(c)
+		return
+	}
+	if t.Kind == "stateful-iterator" {
+		checkStatefulIterator(c)
 		return
 	}
 	checkValue(c, t.Vals, 0, t.Kind == "pair")
